@@ -625,10 +625,71 @@ fn case_range(t: &mut Tape, st: &mut Stats) -> Verdict {
     }
 }
 
+
+/// (kept-results) several split / range calls in ONE run, writing to a small pool of output variables: the arrays of
+/// earlier calls, kept under another variable, must still hold what those calls computed when the run is over.
+fn case_kept(t: &mut Tape, st: &mut Stats) -> Verdict {
+    use crate::hz::*;
+    let n = 2 + t.below(4);
+    let mut script = String::new();
+    let mut side: Vec<String> = vec![];
+    let mut want: Vec<Vec<String>> = vec![];
+    let mut outs: Vec<&str> = vec![];
+    for j in 0..n {
+        let out = *t.pick_ref(&["out", "out", "res"]);
+        if outs.contains(&out) {
+            st.class("output-variable-holds-an-earlier-result");
+        }
+        outs.push(out);
+        if t.chance(2, 3) {
+            let s = text(t, 8);
+            let mut needle = if t.flip() && !s.is_empty() {
+                let chars: Vec<(usize, char)> = s.char_indices().collect();
+                let a = t.below(chars.len());
+                s[chars[a].0..chars[a].0 + chars[a].1.len_utf8()].to_string()
+            } else {
+                text(t, 2)
+            };
+            if needle.is_empty() {
+                needle = ",".to_string();
+            }
+            script.push_str(&format!("s{} = put {}\nn{} = put {}\n{} = split ${{s{}}} ${{n{}}}\n", j, side.len(), j, side.len() + 1, out, j, j));
+            want.push(naive_split(&s, &needle));
+            side.push(s);
+            side.push(needle);
+        } else {
+            let a = t.range(-20, 20);
+            let b = a + t.below(12) as i64;
+            script.push_str(&format!("{} = range {} {}\n", out, a, b));
+            want.push((a..b).map(|x| x.to_string()).collect());
+        }
+        script.push_str(&format!("k{} = set ${{{}}}\n", j, out));
+    }
+    hz_reset();
+    with_hz(|h| h.side = side.clone());
+    let o = run_text(&script, sdk_context(), 20_000, None);
+    let mut ctx = match o.result {
+        Ok(c) => c,
+        Err(e) => return fail("C16/kept/run-error", json!({"script": script, "values": side, "error": format!("{:?}", e)})),
+    };
+    for j in 0..n {
+        let h = ctx.variables.get(&format!("k{}", j)).cloned().unwrap_or_default();
+        let got = read_array(&mut ctx, &h);
+        if got.as_ref() != Some(&want[j]) {
+            return fail("C16/kept/earlier-result-changed", json!({"script": script, "values": side, "call": j, "expected_elements": want[j], "elements_at_the_end_of_the_run": got}));
+        }
+    }
+    if st.want_sample() {
+        let sc = script.clone();
+        st.sample(|| json!({"script": sc}));
+    }
+    Verdict::Pass(Some(fp(&(&script, &side))))
+}
+
 pub fn property() -> Property {
     Property {
         id: "C16",
-        rule: "(substring-grid) EXHAUSTIVE: 12 strings of <= 6 bytes incl. 2-, 3- and 4-byte characters and combining marks x all forms (no index, one index, two indexes) x every index (pair) in [-len-2, len+2] plus non-numeric indexes; in-range requests on character boundaries must return the slice, out-of-domain requests the error result; (strings) random texts over ASCII/multi-byte alphabets with needles drawn as real substrings, longer than the haystack, unrelated or empty: length/indexof/last_indexof/contains/starts_with/ends_with/equals/is_empty/concat/replace/split/trim*/uppercase/lowercase against byte-level naive references, plus the relations substring(s,0,indexof(s,t))+t is a prefix of s, length of a slice, split joined by the separator gives s; (numbers) less_than/greater_than on exactly known decimal values in several spellings incl. pairs differing in the last digit and non-numeric operands; (calc) expression trees over + - * with parentheses, exact integer division and dyadic decimals compared exactly; (range) half-open interval, start>end and non-numeric rejected. Non-trivial: multi-byte text or non-empty needle / index within the grid; distinct by arguments",
+        rule: "(substring-grid) EXHAUSTIVE: 12 strings of <= 6 bytes incl. 2-, 3- and 4-byte characters and combining marks x all forms (no index, one index, two indexes) x every index (pair) in [-len-2, len+2] plus non-numeric indexes; in-range requests on character boundaries must return the slice, out-of-domain requests the error result; (strings) random texts over ASCII/multi-byte alphabets with needles drawn as real substrings, longer than the haystack, unrelated or empty: length/indexof/last_indexof/contains/starts_with/ends_with/equals/is_empty/concat/replace/split/trim*/uppercase/lowercase against byte-level naive references, plus the relations substring(s,0,indexof(s,t))+t is a prefix of s, length of a slice, split joined by the separator gives s; (numbers) less_than/greater_than on exactly known decimal values in several spellings incl. pairs differing in the last digit and non-numeric operands; (calc) expression trees over + - * with parentheses, exact integer division and dyadic decimals compared exactly; (range) half-open interval, start>end and non-numeric rejected; (kept-results) 2..5 split / range calls in one script run writing to a pool of two output variables, each result kept under a further variable: at the end of the run every kept array still holds the pieces / interval of its own call. Non-trivial: multi-byte text or non-empty needle / index within the grid; distinct by arguments",
         assumptions: &[
             "substring with an end index equal to the length (and a start index equal to the length in the one-index form) is left unconstrained",
             "values are free of '$', '%' and backslash; calc expressions avoid inexact division, overflow and mixed int/float division",
@@ -661,6 +722,15 @@ pub fn property() -> Property {
                 },
                 case: case_calc,
                 min_classes: &[("exact-integer-division", 2000), ("decimal-operands", 5000)],
+            },
+            Section {
+                name: "kept-results",
+                plan: |t| match t {
+                    Tier::Quick => Plan::Random { cases: 30_000, max_len: 120 },
+                    Tier::Thorough => Plan::Random { cases: 1_500_000, max_len: 120 },
+                },
+                case: case_kept,
+                min_classes: &[("output-variable-holds-an-earlier-result", 10000)],
             },
             Section {
                 name: "range",
